@@ -4,6 +4,7 @@ CONSTANTS
   Configs <- MCConfigs
   MaxLen = 3
   UseNum = FALSE
+  Star = FALSE
 INIT Init
 NEXT Next
 INVARIANTS TypeOK ImplMeetsContract SortedPrefixInOrder AtMostOneViolation Emit
